@@ -298,12 +298,56 @@ pub fn run(seed: u64, count: usize, max_n: usize, mode: &str, out: &mut impl Wri
     }
     let mut rng = Rng::new(seed);
     let dir = tempfile::Builder::new().prefix("wgverif-art").tempdir().unwrap();
+    if mode == "parperm" {
+        // every permutation of completion order for up to 5 chunks
+        for i in 0..count {
+            let n = rng.range(5, max_n.max(6));
+            let g = gen_graph(&mut rng, n);
+            let mut c = Conf::random(&mut rng, n);
+            c.chunk = rng.pick(&[1, 2, 3, 10000]);
+            let k = rng.range(2, 5);
+            let mut cuts: Vec<usize> = (0..k - 1).map(|_| rng.below(n + 1)).collect();
+            cuts.push(0); cuts.push(n); cuts.sort_unstable();
+            let nonempty: Vec<usize> = (0..k).filter(|&j| cuts[j] < cuts[j + 1]).collect();
+            let mut perms: Vec<Vec<usize>> = Vec::new();
+            permutations(&nonempty, &mut Vec::new(), &mut perms);
+            for (pi, order) in perms.into_iter().enumerate() {
+                let how = How::Par { cuts: cuts.clone(), threads: k + 1, order: Some(order.clone()) };
+                let a = produce(dir.path(), &c, &g, &how);
+                let reload = if a.status == "ok" { reload_seq(dir.path(), c.le) } else { Err("skipped".into()) };
+                let id = format!("perm{i}-{pi}");
+                emit(out, &id, &format!("par_order_{}", fmt_ints(&order).replace(',', "-")), &c, &g, &cuts, &a);
+                emit_reload(out, &id, &g, reload);
+            }
+        }
+        return;
+    }
     for i in 0..count {
         let n = if rng.chance(1, 10) { rng.below(3) } else { rng.range(1, max_n) };
-        let g = gen_graph(&mut rng, n);
-        let c = Conf::random(&mut rng, n);
+        let (g, mut c) = if mode == "chain" {
+            // long reference chains: near-duplicates of the previous list, small max_ref
+            let mut g: Graph = Vec::new();
+            let mut cur: Vec<usize> = (0..rng.range(4, 12)).map(|_| rng.below(4 * n + 8)).collect();
+            for _ in 0..n {
+                cur.sort_unstable(); cur.dedup();
+                g.push(cur.clone());
+                if rng.chance(1, 12) { cur = (0..rng.range(4, 12)).map(|_| rng.below(4 * n + 8)).collect(); }
+                else if rng.chance(1, 2) { let k = rng.below(cur.len().max(1)); if !cur.is_empty() { cur[k] = rng.below(4 * n + 8); } }
+            }
+            let mut c = Conf::random(&mut rng, n);
+            c.w = rng.pick(&[1, 2, 3, 7, 9]);
+            c.mr = rng.pick(&[0, 1, 2, 3, 5, usize::MAX]);
+            c.chunk = rng.range(1, 12);
+            (g, c)
+        } else {
+            let g = gen_graph(&mut rng, n);
+            let c = Conf::random(&mut rng, n);
+            (g, c)
+        };
+        let n = g.len();
+        if mode == "chain" && rng.chance(1, 2) { c.zuck = true; }
         let (how, path, cuts): (How, &str, Vec<usize>) = match mode {
-            "seq" => {
+            "seq" | "chain" => {
                 if rng.chance(1, 2) { (How::CompGraph, "comp_graph", vec![0, n]) }
                 else { (How::CompLender, "comp_lender", vec![0, n]) }
             }
@@ -312,25 +356,44 @@ pub fn run(seed: u64, count: usize, max_n: usize, mode: &str, out: &mut impl Wri
                 let inner = rng.chance(1, 4);
                 let cuts = gen_cuts(&mut rng, n, inner);
                 let chunks = cuts.len() - 1;
-                let impose = chunks <= 12 && rng.chance(2, 3);
-                let threads = if impose { chunks.max(1) + rng.below(3) } else { rng.range(1, 16) };
-                let order = if impose {
-                    // only chunks with at least one node ever report a job
-                    let mut o: Vec<usize> = (0..chunks).filter(|&j| cuts[j] < cuts[j + 1]).collect();
-                    rng.shuffle(&mut o);
-                    Some(o)
-                } else { None };
-                (How::Par { cuts: cuts.clone(), threads, order }, "par_cut", cuts)
+                if rng.chance(1, 8) {
+                    // uniform split through ParGraph::new (possibly more parts than nodes)
+                    let parts = rng.range(1, 2 * n + 3);
+                    let step = n.div_ceil(parts).max(0);
+                    let ucuts: Vec<usize> = (0..=parts).map(|i| (i * step).min(n)).collect();
+                    (How::ParUniform { parts, threads: rng.range(1, 16) }, "par_uniform", ucuts)
+                } else {
+                    let impose = chunks <= 12 && rng.chance(2, 3);
+                    let threads = if impose { chunks.max(1) + rng.below(3) } else { rng.range(1, 16) };
+                    let order = if impose {
+                        // only chunks with at least one node ever report a real job
+                        let mut o: Vec<usize> = (0..chunks).filter(|&j| cuts[j] < cuts[j + 1]).collect();
+                        rng.shuffle(&mut o);
+                        Some(o)
+                    } else { None };
+                    (How::Par { cuts: cuts.clone(), threads, order }, "par_cut", cuts)
+                }
             }
         };
         let a = produce(dir.path(), &c, &g, &how);
         let reload = if a.status == "ok" { reload_seq(dir.path(), c.le) } else { Err("skipped".into()) };
         let id = format!("{mode}{i}");
         emit(out, &id, path, &c, &g, &cuts, &a);
-        let rl = match reload {
-            Ok(g2) => if g2 == g { "ok".to_string() } else { format!("diff:{}", sanitize(&fmt_lists(&g2))) },
-            Err(e) => e,
-        };
-        writeln!(out, "#impl id={id} reload={rl}").unwrap();
+        emit_reload(out, &id, &g, reload);
+    }
+}
+
+fn emit_reload(out: &mut impl Write, id: &str, g: &Graph, reload: Result<Graph, String>) {
+    let rl = match reload {
+        Ok(g2) => if &g2 == g { "ok".to_string() } else { format!("diff:{}", sanitize(&fmt_lists(&g2))) },
+        Err(e) => e,
+    };
+    writeln!(out, "#impl id={id} reload={rl}").unwrap();
+}
+
+fn permutations(items: &[usize], cur: &mut Vec<usize>, out: &mut Vec<Vec<usize>>) {
+    if cur.len() == items.len() { out.push(cur.clone()); return; }
+    for &x in items {
+        if !cur.contains(&x) { cur.push(x); permutations(items, cur, out); cur.pop(); }
     }
 }
